@@ -383,7 +383,15 @@ func TestC15(t *testing.T) {
 func runC08(ctx *ev.Ctx, c scCase) {
 	dir := lworld.TempDir("c08")
 	defer os.RemoveAll(dir)
-	ch, err := lworld.Open(dir, c.N, 2)
+	var ch *lworld.Chain
+	var err error
+	if c.CrashBlock == -1 {
+		// the very first start stops while genesis is persisted; the node starts again on the same directory
+		ch, err = lworld.OpenAfterInterruptedGenesis(dir, c.N, 2, c.CrashPoint)
+		ctx.Label("genesis-interrupted:" + c.CrashPoint)
+	} else {
+		ch, err = lworld.Open(dir, c.N, 2)
+	}
 	if err != nil {
 		ctx.Failf("open ledger: %v", err)
 	}
@@ -521,9 +529,13 @@ func TestC08(t *testing.T) {
 			if len(c.Blocks) < 2 {
 				c.Blocks = append(c.Blocks, c.Blocks[0])
 			}
-			if rapid.IntRange(0, 2).Draw(t, "crash") == 0 {
+			switch rapid.IntRange(0, 5).Draw(t, "crash") {
+			case 0, 1:
 				c.CrashBlock = rapid.IntRange(1, len(c.Blocks)).Draw(t, "crash_block")
 				c.CrashPoint = rapid.SampledFrom(c12Points).Draw(t, "crash_point")
+			case 2:
+				c.CrashBlock = -1
+				c.CrashPoint = rapid.SampledFrom(append([]string{"genesis-before-version"}, c12Points...)).Draw(t, "genesis_crash_point")
 			}
 			return c
 		}, runC08)
